@@ -313,7 +313,7 @@ class CoordPayload():
 
         return self
 
-    def __div__(self, other):
+    def __truediv__(self, other):
         """__div__"""
 
         if isinstance(other, CoordPayload):
@@ -323,12 +323,12 @@ class CoordPayload():
 
         return ans
 
-    def __rdiv__(self, other):
+    def __rtruediv__(self, other):
         """__rdiv__"""
 
         return other / self.payload
 
-    def __idiv__(self, other):
+    def __itruediv__(self, other):
         """__idiv__"""
 
         if isinstance(other, CoordPayload):
